@@ -1,23 +1,585 @@
-"""Python side of the extracted fix/check/scrub model (coq/Fix/FixModel.v, ocaml/C01/driver.ml): serialisation of the
-real pre-state, parsing of the prediction, comparison with the real run."""
-import os
+"""Python side of the extracted check / fix / scrub model (coq/Fix/FixModel.v, coq/Fix/ScrubStep.v, ocaml/C01/driver.ml):
+serialisation of the real pre-state, parsing of the prediction, comparison with the real run.
+
+The pre-state given to the model is built from independent knowledge only: the content file decoded by content.py, the
+bytes on the data disks, what each parity block encodes (found by decode_parity_block among the blocks ever recorded at
+that position, validated with gfref), and hashes computed by the python murmur3 of c01_lib."""
+import os, re
 from c01_lib import *
 
 TRUSTED = ['Coq 8.16.1 kernel',
-           'hand model coq/Fix/FixModel.v of cmdline/check.c (repair, repair_step, state_check_process, file_post) over coq/Array/ArrayDefs.v',
+           'hand model coq/Fix/FixModel.v of cmdline/check.c (repair, repair_step, state_check_process, file_post, block_is_enabled) and state.c state_filter, over coq/Array/ArrayDefs.v',
            'abstraction of coq/Array/ArrayDefs.v: blocks are ids, a parity block is what it encodes, reconstruction = C03 theorem, hashes a parameter',
-           'extraction + ocaml/C01/driver.ml', 'harness/py/{arraylib,modelbridge,content,gfref,c01_lib,c01_model}.py (independent decoder, parity checker, snapshot oracle)']
+           'extraction + ocaml/C01/driver.ml', 'harness/py/{arraylib,modelbridge,content,gfref,c01_lib,c01_model}.py (independent decoder, parity decoder/checker, murmur3, snapshot oracle)']
 ASSUMPTIONS = ['hash collision-freedom on the finite set of blocks involved (recorded blocks, damaged blocks, candidate reconstructions)',
                'import directories (-i), hash migration in progress (rehash) and split parity are not in the fix model (split is C17\'s refinement)',
-               'I/O errors other than missing/short files and lost/short parity are not modelled here (C08)']
+               'I/O errors other than missing/short files and lost/short parity are not modelled here (C08)',
+               'parity corruption correlated between levels (e.g. two levels zero-filled, the same constant xored into two levels) can be mutually consistent and is outside "detectable damage"']
+NOW = -7
+JBASE = 4294967296
+
+K = {'ERR_OPEN': 1, 'ERR_READ': 2, 'ERR_DATA': 3, 'ERR_SIZE': 4, 'FIXED_SIZE': 5, 'PAR_READ': 6, 'PAR_DATA': 7, 'PAR_TRY': 8, 'UNREC': 9,
+     'UNREC_UNSYNC': 10, 'FIXED': 11, 'PAR_FIXED': 12, 'ST_RECOVERED': 13, 'ST_UNREC': 14, 'ST_RECOVERABLE': 15, 'ST_DAMAGED': 16, 'COLLISION': 17,
+     'EMPTY_ERR': 20, 'EMPTY_FIXED': 21, 'HARD_ERR': 22, 'HARD_FIXED': 23, 'SYM_ERR': 24, 'SYM_FIXED': 25, 'DIR_ERR': 26, 'DIR_FIXED': 27, 'HASH_UNKNOWN': 30,
+     'SC_OPEN': 40, 'SC_READ': 41, 'SC_DATA': 42, 'SC_PAR_READ': 43, 'SC_PAR_DATA': 44}
+KN = {v: k for k, v in K.items()}
 
 
 class ModelSide:
-    def __init__(self, arr, st, model):
+    def __init__(self, arr, st, model, history=False, cand_hist=None):
         self.arr, self.st, self.model = arr, st, model
+        self.br = Bridge01(arr)
+        self.bs = arr.bs
+        self.hs = st['hashsize']
+        self.seed = st['seed']
+        self.hash_ok = st['hash'] == 'murmur3'
+        self.hcache = {}
+        self.order = {m['name']: m['pos'] for m in st['maps']}
+        self.ndpos = max([arr.nd] + [p + 1 for p in self.order.values()])
+        self.bypos = {p: n for n, p in self.order.items()}
+        self.history = history
+        self.cand_hist = cand_hist      # (disk, pos) -> set of padded blocks ever recorded there (C05 histories)
+        self.rec = {}                   # (disk, sub) -> file entry
+        for d, dd in st['disks'].items():
+            for f in dd['files']:
+                self.rec[(d, f['sub'])] = f
+        self.stripes, _ = arr.stripes(st)
+        if not history:
+            self.br.parity_from_oracle(st)
+
+    # --------------------------------------------------------------------------------------------- hashes
+    def htok(self, bid, ln):
+        k = (bid, ln)
+        if k not in self.hcache:
+            blk = self.br.blocks[bid]
+            self.hcache[k] = self.br.hval(murmur3_x86_128(blk[:ln], self.seed)[:self.hs])
+        return self.hcache[k]
+
+    # --------------------------------------------------------------------------------------------- fs
+    def ser_fs(self):
+        a, br, bs = self.arr, self.br, self.bs
+        toks = ['FS', str(self.ndpos)]
+        self.fsblocks = {}
+        for p in range(self.ndpos):
+            d = self.bypos.get(p)
+            if d is None:
+                toks.append('X-')
+                continue
+            base = os.path.join(a.root, d)
+            files = []
+            for root, dirs, fs in os.walk(base):
+                for n in fs:
+                    path = os.path.join(root, n)
+                    if os.path.islink(path):
+                        continue
+                    sub = os.fsencode(os.path.relpath(path, base))
+                    st = os.stat(path)
+                    data = open(path, 'rb').read()
+                    f = self.rec.get((d, sub))
+                    ids = []
+                    if f is not None:
+                        rs = f['size']
+                        for idx in range((rs + bs - 1) // bs):
+                            lo = idx * bs
+                            if lo >= len(data):
+                                break
+                            ids.append(br.bid(data[lo:min(lo + bs, rs)]))
+                    else:
+                        ids = [br.bid(data[k:k + bs]) for k in range(0, len(data), bs)]
+                    self.fsblocks[(d, sub)] = ids
+                    files.append([str(br.name(d, sub)), str(len(data)), str(st.st_mtime_ns // 10**9), str(st.st_mtime_ns % 10**9), str(st.st_ino), str(len(ids))] + list(map(str, ids)))
+            toks += ['X', str(len(files))]
+            for f in files:
+                toks += f
+        return toks
+
+    # --------------------------------------------------------------------------------------------- parity
+    def parity_view(self):
+        a, br = self.arr, self.br
+        if not self.history:
+            return br.refresh_parity_view()
+        # histories: decode every block among the blocks ever recorded at that position (+ zero).  Short blocks make a
+        # single level ambiguous (a 1-byte block has 256 values), so a candidate vector is preferred when it explains
+        # MORE levels at once; the levels it does not explain are decoded again among the rest.
+        import itertools
+        self.junk = getattr(self, 'junk', 7000000)
+        zero = bytes(a.bs)
+        reals = [a.parity_bytes(l) for l in range(a.np)]
+        npos = max([(len(r) + a.bs - 1) // a.bs for r in reals] + [0])
+        par = [[] for _ in range(a.np)]
+        for pos in range(npos):
+            got = [r[pos * a.bs:(pos + 1) * a.bs] for r in reals]
+            cands = []
+            for p in range(self.ndpos):
+                d = self.bypos.get(p)
+                cs = [zero]
+                if d is not None and self.cand_hist is not None:
+                    cs += sorted(b for b in self.cand_hist.get((d, pos), ()) if b != zero)
+                cands.append(cs)
+            todo = [l for l in range(a.np) if len(got[l]) == a.bs]
+            found = {}
+            ncomb = 1
+            for cs in cands:
+                ncomb *= len(cs)
+            if ncomb <= 5000 and todo:
+                # per level: the multiplied candidates, then all combinations once
+                mul = {l: [[gfmul_block(parity_coeff(a, l, i), b) for b in cs] for i, cs in enumerate(cands)] for l in todo}
+                expl = []
+                for combo in itertools.product(*[range(len(cs)) for cs in cands]):
+                    ls = []
+                    for l in todo:
+                        acc = zero
+                        for i, k in enumerate(combo):
+                            if k or cands[i][k] != zero:
+                                acc = xor_blocks(acc, mul[l][i][k])
+                        if acc == got[l]:
+                            ls.append(l)
+                    if ls:
+                        expl.append((len(ls), combo, ls))
+                expl.sort(key=lambda x: -x[0])
+                for n, combo, ls in expl:
+                    for l in ls:
+                        if l not in found:
+                            found[l] = combo
+            for l in range(a.np):
+                if len(got[l]) < a.bs:
+                    if pos * a.bs < len(reals[l]) or pos < npos:
+                        par[l].append(['N'])
+                    continue
+                if l in found:
+                    par[l].append(['E%d' % self.ndpos] + [str(br.bid(cands[i][k])) for i, k in enumerate(found[l])])
+                else:
+                    self.junk += 1
+                    par[l].append(['J%d' % self.junk])
+        return par
+
+    # --------------------------------------------------------------------------------------------- request
+    def capture(self, cmd, opts):
+        """everything the model needs, taken BEFORE the real command runs (except the inodes of created files)"""
+        a, br, st, bs = self.arr, self.br, self.st, self.bs
+        c_toks = br.ser_content(st)
+        fs_toks = self.ser_fs()
+        par = self.parity_view()
+        self.par_before = par
+        p_toks = ['P', str(a.np)]
+        for lv in par:
+            p_toks.append(str(len(lv)))
+            for e in lv:
+                p_toks += e
+        # pairs (block, length) whose hash / padding the model may look at
+        pairs = set()
+        for pos, blocks in self.stripes.items():
+            for dp, (s, d, f, i, h) in blocks.items():
+                if f is None:
+                    continue
+                ln = min(bs, f['size'] - i * bs)
+                ids = set()
+                fb = self.fsblocks.get((d, f['sub']))
+                if fb is not None and i < len(fb):
+                    ids.add(fb[i])
+                for lv in par:
+                    if pos < len(lv) and lv[pos][0][0] == 'E' and dp + 1 < len(lv[pos]):
+                        ids.add(int(lv[pos][dp + 1]))
+                # twins for state_search_fetch: any file with the same size and time-stamp
+                for (d2, sub2), ids2 in self.fsblocks.items():
+                    if i < len(ids2) and (d2, sub2) != (d, f['sub']):
+                        try:
+                            s2 = os.stat(os.path.join(a.root, d2, os.fsdecode(sub2)))
+                        except OSError:
+                            continue
+                        if s2.st_size == f['size'] and s2.st_mtime_ns // 10**9 == f['sec'] and s2.st_mtime_ns % 10**9 == f['nsec']:
+                            ids.add(ids2[i])
+                for b in ids:
+                    pairs.add((b, ln))
+        h_toks, pz, tr = [], [], []
+        for (b, ln) in sorted(pairs):
+            if self.hash_ok:
+                h_toks += [str(b), str(ln), self.htok(b, ln)]
+            if ln < bs and any(br.blocks[b][ln:]):
+                pz += [str(b), str(ln), '0']
+                tr += [str(b), str(ln), str(br.bid(br.blocks[b][:ln]))]
+        h_toks = ['H', str(len(h_toks) // 3)] + h_toks
+        pz = ['PZ', str(len(pz) // 3)] + pz
+        tr = ['TR', str(len(tr) // 3)] + tr
+        # filters
+        fd, fn, fm, fe = '-', '-', 0, 0
+        fdl, fnl = [], []
+        i = 0
+        opts = list(opts)
+        audit = 0
+        while i < len(opts):
+            o = opts[i]
+            if o == '-d':
+                fdl.append(self.order.get(opts[i + 1], 999)); i += 2
+            elif o == '-f':
+                pat = opts[i + 1]
+                for (d, sub), f in self.rec.items():
+                    if os.fsdecode(sub).split('/')[-1] == pat:
+                        fnl.append((self.order[d], br.name(d, sub)))
+                fn = 'set'; i += 2
+            elif o == '-m':
+                fm = 1; i += 1
+            elif o == '-e':
+                fe = 1; i += 1
+            elif o == '-a':
+                audit = 1; i += 1
+            else:
+                i += 1
+        fl = ['FL']
+        fl += ['-'] if not fdl else [str(len(fdl))] + list(map(str, fdl))
+        fl += ['-'] if fn == '-' else [str(len(fnl))] + [str(x) for k in fnl for x in k]
+        fl += [str(fm), str(fe)]
+        filt_par = bool(fdl) or fm or fn != '-'
+        fix = cmd == 'fix'
+        po = ['PO', str(a.np)]
+        for l in range(a.np):
+            exists = os.path.exists(a.parity_files[l][0])
+            if audit:
+                po.append('0')
+            elif fix and not filt_par:
+                po.append('1')
+            else:
+                po.append('1' if exists else '0')
+        # objects
+        objs = []
+        for p in range(self.ndpos):
+            d = self.bypos.get(p)
+            if d is None:
+                continue
+            dd = st['disks'][d]
+
+            def excl(sub, isdir=False):
+                rel = os.fsdecode(sub)
+                if fdl and p not in fdl:
+                    return 1
+                if fn != '-' and rel.split('/')[-1] != [opts[k + 1] for k in range(len(opts)) if opts[k] == '-f'][0]:
+                    return 1
+                if fm and os.path.lexists(os.path.join(a.root, d, rel)):
+                    return 1
+                return 0
+            for f in dd['files']:
+                if f['size'] == 0:
+                    ex = 1 if (p, br.name(d, f['sub'])) in [] else 0
+                    objs += [str(p), 'E', str(br.name(d, f['sub'])), '0', '1', 'X%d' % br.name(d, f['sub'])]
+            for lk in dd['links']:
+                path = os.path.join(a.root, d, os.fsdecode(lk['sub']))
+                if lk['hard']:
+                    objs += [str(p), 'H', str(br.name(d, lk['sub'])), str(br.name(d, lk['to'])), '1', str(excl(lk['sub']))]
+                else:
+                    try:
+                        ok = os.readlink(path) == os.fsdecode(lk['to'])
+                    except OSError:
+                        ok = False
+                    objs += [str(p), 'S', str(br.name(d, lk['sub'])), '0', '1' if ok else '0', str(excl(lk['sub']))]
+            for dr in dd['dirs']:
+                path = os.path.join(a.root, d, os.fsdecode(dr))
+                objs += [str(p), 'D', str(br.name(d, dr)), '0', '1' if (os.path.isdir(path)) else '0', str(excl(dr, True))]
+        self._objs = objs
+        pos = ['POS', str(st['blockmax'])] + list(map(str, range(st['blockmax'])))
+        head = ['run', cmd, str(bs), str(a.np), '1' if self.hs != 16 else '0', str(NOW), str(audit), str(fe), str(fe), str(audit)]
+        return {'head': head, 'mid': h_toks + pz + tr + c_toks + p_toks + fs_toks + fl + po, 'pos': pos, 'cmd': cmd, 'opts': opts, 'audit': audit}
 
     def predict(self, cmd, opts):
-        return None
+        if cmd == 'scrub':
+            a, br, st = self.arr, self.br, self.st
+            c_toks = br.ser_content(st)
+            fs_toks = self.ser_fs()
+            par = self.parity_view()
+            p_toks = ['P', str(a.np)]
+            for lv in par:
+                p_toks.append(str(len(lv)))
+                for e in lv:
+                    p_toks += e
+            pairs = set()
+            for pos, blocks in self.stripes.items():
+                for dp, (s, d, f, i, h) in blocks.items():
+                    if f is None:
+                        continue
+                    fb = self.fsblocks.get((d, f['sub']))
+                    if fb is not None and i < len(fb):
+                        pairs.add((fb[i], min(self.bs, f['size'] - i * self.bs)))
+            h = []
+            for (b, ln) in sorted(pairs):
+                h += [str(b), str(ln), self.htok(b, ln)]
+            sel = [p for p, i in enumerate(st['info']) if i is not None]
+            req = ['scrub', str(self.bs), str(a.np), '100', 'H', str(len(h) // 3)] + h + c_toks + p_toks + fs_toks + ['POS', str(len(sel))] + list(map(str, sel))
+            return {'cmd': 'scrub', 'req': req, 'opts': list(opts)}
+        return self.capture(cmd, opts)
 
-    def compare(self, pred, r, cmd):
-        return []
+    def run_model(self, cap):
+        a, br = self.arr, self.br
+        if cap['cmd'] == 'scrub':
+            out = run_lines(self.model, [' '.join(cap['req'])], shards=1)[0]
+            return out
+        # the excluded flag of empty files follows the file filters: the model computes it itself for files, here we only pass
+        # the object list; empty files use ob_excl = is the file excluded -> ask through a marker resolved below
+        objs = list(self._objs)
+        ni = []
+        for (d, sub), f in self.rec.items():
+            p = os.path.join(a.root, d, os.fsdecode(sub))
+            if os.path.isfile(p) and not os.path.islink(p):
+                ni += [str(self.order[d]), str(br.name(d, sub)), str(os.stat(p).st_ino)]
+            elif os.path.isfile(p + '.unrecoverable'):
+                ni += [str(self.order[d]), str(br.name(d, sub)), str(os.stat(p + '.unrecoverable').st_ino)]
+        excl_files = self.excluded_files(cap)
+        fixed_objs = []
+        for k in range(0, len(objs), 6):
+            o = objs[k:k + 6]
+            if o[5].startswith('X'):
+                o[5] = '1' if (int(o[0]), int(o[5][1:])) in excl_files else '0'
+            fixed_objs += o
+        req = cap['head'] + cap['mid'] + ['OBJ', str(len(fixed_objs) // 6)] + fixed_objs + cap['pos'] + ['NI', str(len(ni) // 3)] + ni
+        self.last_req = ' '.join(req)
+        return run_lines(self.model, [self.last_req], shards=1)[0]
+
+    def excluded_files(self, cap):
+        """(disk position, name id) of the data files the filters exclude (mirror of what the harness already knows)"""
+        opts = cap['opts']
+        out = set()
+        st = self.st
+        for (d, sub), f in self.rec.items():
+            rel = os.fsdecode(sub)
+            ex = False
+            i = 0
+            while i < len(opts):
+                o = opts[i]
+                if o == '-d':
+                    ex = ex or d != opts[i + 1]; i += 2
+                elif o == '-f':
+                    ex = ex or rel.split('/')[-1] != opts[i + 1]; i += 2
+                elif o == '-m':
+                    ex = ex or (d, sub) in self.fsblocks; i += 1
+                elif o == '-e':
+                    ex = ex or not any(st['info'][pos] and st['info'][pos]['bad'] for s, pos, h in f['blocks'] if pos < len(st['info'])); i += 1
+                else:
+                    i += 1
+            if ex:
+                out.add((self.order[d], self.br.name(d, sub)))
+        return out
+
+    # --------------------------------------------------------------------------------------------- comparison
+    def real_tags(self, r, cmd):
+        """the real log lines of the kinds the model emits, as (kind, args) tuples"""
+        br = self.br
+        names = {}
+        out = []
+        lev = {n: i for i, n in enumerate(LEVNAME)}
+
+        def nm(d, s):
+            return br.name(d, s.encode('latin1'))
+        for t in r.tags:
+            m = re.match(r'^error:(\d+):([^:]+):(.*): (Open error|Read error|Data error) at position (\d+)', t, re.S)
+            if m:
+                k = {'Open error': 'ERR_OPEN', 'Read error': 'ERR_READ', 'Data error': 'ERR_DATA'}[m.group(4)]
+                if cmd == 'scrub':
+                    k = {'ERR_READ': 'SC_READ', 'ERR_DATA': 'SC_DATA', 'ERR_OPEN': 'SC_OPEN'}[k]
+                out.append((K[k], (int(m.group(1)), self.order[m.group(2)], nm(m.group(2), m.group(3)), int(m.group(5)))))
+                continue
+            m = re.match(r'^error:(\d+):([^:]+):(.*): Open error\. ', t, re.S)
+            if m and cmd == 'scrub':
+                out.append((K['SC_OPEN'], (int(m.group(1)), self.order[m.group(2)], nm(m.group(2), m.group(3)))))
+                continue
+            m = re.match(r'^error:(\d+):([^:]+):(.*): Size error', t, re.S)
+            if m:
+                out.append((K['ERR_SIZE'], (int(m.group(1)), self.order[m.group(2)], nm(m.group(2), m.group(3)))))
+                continue
+            m = re.match(r'^fixed:(\d+):([^:]+):(.*): Fixed size', t, re.S)
+            if m:
+                out.append((K['FIXED_SIZE'], (int(m.group(1)), self.order[m.group(2)], nm(m.group(2), m.group(3)))))
+                continue
+            m = re.match(r'^fixed:(\d+):([^:]+):(.*): Fixed data error at position (\d+)', t, re.S)
+            if m:
+                out.append((K['FIXED'], (int(m.group(1)), self.order[m.group(2)], nm(m.group(2), m.group(3)), int(m.group(4)))))
+                continue
+            m = re.match(r'^unrecoverable:(\d+):([^:]+):(.*): Unrecoverable (unsynced )?error at position (\d+)', t, re.S)
+            if m:
+                out.append((K['UNREC_UNSYNC' if m.group(4) else 'UNREC'], (int(m.group(1)), self.order[m.group(2)], nm(m.group(2), m.group(3)), int(m.group(5)))))
+                continue
+            m = re.match(r'^parity_error:(\d+):([^:]+): (Read error|Data error)', t)
+            if m:
+                if cmd == 'scrub':
+                    out.append((K['SC_PAR_READ' if m.group(3) == 'Read error' else 'SC_PAR_DATA'], (int(m.group(1)), lev[m.group(2)])))
+                else:
+                    out.append((K['PAR_READ' if m.group(3) == 'Read error' else 'PAR_DATA'], (int(m.group(1)), lev[m.group(2)])))
+                continue
+            m = re.match(r'^parity_error:(\d+):([^:]+):(hash|parity): ', t)
+            if m:
+                out.append((K['PAR_TRY'], (int(m.group(1)), 1 if m.group(3) == 'hash' else 0) + tuple(lev[x] for x in m.group(2).split('/'))))
+                continue
+            m = re.match(r'^parity_fixed:(\d+):([^:]+): ', t)
+            if m:
+                out.append((K['PAR_FIXED'], (int(m.group(1)), lev[m.group(2)])))
+                continue
+            m = re.match(r'^status:(recovered|unrecoverable|recoverable|damaged):([^:]+):(.*)$', t, re.S)
+            if m:
+                k = {'recovered': 'ST_RECOVERED', 'unrecoverable': 'ST_UNREC', 'recoverable': 'ST_RECOVERABLE', 'damaged': 'ST_DAMAGED'}[m.group(1)]
+                out.append((K[k], (self.order[m.group(2)], nm(m.group(2), m.group(3)))))
+                continue
+            m = re.match(r'^collision:([^:]+):(.*):(.*): Not setting', t, re.S)
+            if m:
+                out.append((K['COLLISION'], (self.order[m.group(1)], nm(m.group(1), m.group(2)), nm(m.group(1), m.group(3)))))
+                continue
+            m = re.match(r'^error:([^:0-9][^:]*):(.*): Empty file', t, re.S)
+            if m:
+                out.append((K['EMPTY_ERR'], (self.order[m.group(1)], nm(m.group(1), m.group(2)))))
+                continue
+            m = re.match(r'^fixed:([^:0-9][^:]*):(.*): Fixed empty file', t, re.S)
+            if m:
+                out.append((K['EMPTY_FIXED'], (self.order[m.group(1)], nm(m.group(1), m.group(2)))))
+                continue
+            m = re.match(r'^hardlink_error:([^:]+):(.*):(.*): Hardlink', t, re.S)
+            if m:
+                out.append((K['HARD_ERR'], (self.order[m.group(1)], nm(m.group(1), m.group(2)))))
+                continue
+            m = re.match(r'^(hardlink|symlink|dir)_fixed:([^:]+):(.*): Fixed', t, re.S)
+            if m:
+                out.append((K[{'hardlink': 'HARD_FIXED', 'symlink': 'SYM_FIXED', 'dir': 'DIR_FIXED'}[m.group(1)]], (self.order[m.group(2)], nm(m.group(2), m.group(3)))))
+                continue
+            m = re.match(r'^symlink_error:([^:]+):(.*): Symlink', t, re.S)
+            if m:
+                out.append((K['SYM_ERR'], (self.order[m.group(1)], nm(m.group(1), m.group(2)))))
+                continue
+            m = re.match(r'^dir_error:([^:]+):(.*): Dir', t, re.S)
+            if m:
+                out.append((K['DIR_ERR'], (self.order[m.group(1)], nm(m.group(1), m.group(2)))))
+                continue
+        return out
+
+    def parse_tags(self, toks, i):
+        assert toks[i] == 'TAGS'
+        n = int(toks[i + 1]); i += 2
+        out = []
+        for _ in range(n):
+            k = int(toks[i]); na = int(toks[i + 1]); i += 2
+            out.append((k, tuple(int(x) for x in toks[i:i + na]))); i += na
+        return out, i
+
+    def compare(self, cap, r, cmd, opts=()):
+        """run the model on the captured pre-state and compare with the real run; returns list of differences"""
+        if cap is None:
+            return []
+        out = self.run_model(cap)
+        if not out.startswith('ok '):
+            return ['model failed: %s' % out[:200]]
+        toks = out.split()
+        diffs = []
+        desc = lambda t: '%s%s' % (KN.get(t[0], t[0]), t[1])
+        if cmd == 'scrub':
+            fail, bailed = int(toks[1]), int(toks[2])
+            i = 3
+            assert toks[i] == 'BAD'
+            nb = int(toks[i + 1]); bad = [int(x) for x in toks[i + 2:i + 2 + nb]]; i += 2 + nb
+            assert toks[i] == 'REF'
+            nr = int(toks[i + 1]); ref = [int(x) for x in toks[i + 2:i + 2 + nr]]; i += 2 + nr
+            assert toks[i] == 'CNT'
+            cnt = [int(x) for x in toks[i + 1:i + 4]]; i += 4
+            mt, i = self.parse_tags(toks, i)
+            rt = self.real_tags(r, 'scrub')
+            if sorted(mt) != sorted(rt):
+                diffs.append('scrub tags: model %s, real %s' % (sorted(set(map(desc, mt)) - set(map(desc, rt))), sorted(set(map(desc, rt)) - set(map(desc, mt)))))
+            if bool(fail) != (r.rc != 0):
+                diffs.append('scrub exit: model fail=%d real rc=%d' % (fail, r.rc))
+            sm = r.summary()
+            realcnt = [int(sm.get('error_file', -1)), int(sm.get('error_data', -1)), int(sm.get('error_io', -1))]
+            if realcnt != cnt:
+                diffs.append('scrub counters (file, data, io): model %s real %s' % (cnt, realcnt))
+            try:
+                st2 = self.arr.content()
+                before = [p for p, x in enumerate(self.st['info']) if x and x['bad']]
+                exp = sorted((set(before) - set(ref)) | set(bad))
+                marked = [p for p, x in enumerate(st2['info']) if x and x['bad']]
+                if marked != exp:
+                    diffs.append('bad marks after scrub: model %s real %s' % (exp, marked))
+            except Exception as e:
+                diffs.append('content after scrub unreadable: %s' % e)
+            return diffs
+        fail, err, rec, unrec = int(toks[1]), int(toks[2]), int(toks[3]), int(toks[4])
+        mt, i = self.parse_tags(toks, 5)
+        mt = [t for t in mt if t[0] != K['HASH_UNKNOWN']]
+        rt = self.real_tags(r, cmd)
+        if sorted(mt) != sorted(rt):
+            from collections import Counter
+            cm, cr = Counter(mt), Counter(rt)
+            diffs.append('tags only in the model: %s; only in the real run: %s' % (sorted(map(desc, (cm - cr).elements()))[:6], sorted(map(desc, (cr - cm).elements()))[:6]))
+        if bool(fail) != (r.rc != 0):
+            diffs.append('exit status: model fail=%d real rc=%d' % (fail, r.rc))
+        sm = r.summary()
+        if self.st['blockmax'] == 0:
+            # state_check skips everything (no summary is printed) when there is no block at all
+            if 'error' in sm:
+                diffs.append('a summary is printed although blockmax is 0')
+            return diffs
+        if int(sm.get('error', -1)) != err:
+            diffs.append('summary:error model %d real %s' % (err, sm.get('error')))
+        if cmd == 'fix' and int(sm.get('error_recovered', -1)) != rec:
+            diffs.append('summary:error_recovered model %d real %s' % (rec, sm.get('error_recovered')))
+        if not cap.get('audit') and int(sm.get('error_unrecoverable', -1)) != unrec:
+            diffs.append('summary:error_unrecoverable model %d real %s' % (unrec, sm.get('error_unrecoverable')))
+        if cmd == 'fix':
+            diffs += self.compare_fs(toks, i)
+        return diffs
+
+    def compare_fs(self, toks, i):
+        """the data files after the real fix vs the model's file system (recorded files only)"""
+        a, br, bs = self.arr, self.br, self.bs
+        diffs = []
+        assert toks[i] == 'FS'
+        nd = int(toks[i + 1]); i += 2
+        model = {}
+        for p in range(nd):
+            if toks[i] == 'X-':
+                i += 1
+                continue
+            nf = int(toks[i + 1]); i += 2
+            for _ in range(nf):
+                name, size, mt, ns, ino, nb = (int(x) for x in toks[i:i + 6]); i += 6
+                model[(p, name)] = (size, mt, ns, [int(x) for x in toks[i:i + nb]]); i += nb
+        self.model_par_index = i
+        for (d, sub), f in self.rec.items():
+            key = (self.order[d], br.name(d, sub))
+            path = os.path.join(a.root, d, os.fsdecode(sub))
+            m = model.get(key)
+            real = open(path, 'rb').read() if (os.path.isfile(path) and not os.path.islink(path)) else None
+            if (m is None) != (real is None):
+                diffs.append('%s:%s after fix: model says %s, real %s' % (d, os.fsdecode(sub), 'absent' if m is None else 'present', 'absent' if real is None else 'present'))
+                continue
+            if m is None:
+                continue
+            if m[0] != len(real):
+                diffs.append('%s:%s size after fix: model %d real %d' % (d, os.fsdecode(sub), m[0], len(real)))
+                continue
+            rs = f['size']
+            for idx, b in enumerate(m[3]):
+                lo = idx * bs
+                chunk = real[lo:min(lo + bs, max(rs, lo))] if lo < rs else real[lo:lo + bs]
+                if b >= JBASE:
+                    continue
+                if br.bid(chunk) != b:
+                    diffs.append('%s:%s block %d after fix differs from the model' % (d, os.fsdecode(sub), idx))
+                    break
+            rst = os.stat(path)
+            restored_real = (rst.st_mtime_ns // 10**9 == f['sec'] and rst.st_mtime_ns % 10**9 == f['nsec'])
+            restored_model = (m[1] == f['sec'] and m[2] == f['nsec'])
+            if restored_real != restored_model:
+                diffs.append('%s:%s mtime after fix: model %s, real %s' % (d, os.fsdecode(sub), 'recorded' if restored_model else 'not recorded', 'recorded' if restored_real else 'not recorded'))
+        # parity after fix
+        toksp = toks[self.model_par_index:]
+        if toksp and toksp[0] == 'P':
+            mp, _ = br.parse_parity(toksp, 0)
+            for l in range(min(a.np, len(mp))):
+                realp = a.parity_bytes(l)
+                for pos, e in enumerate(mp[l]):
+                    got = realp[pos * bs:(pos + 1) * bs]
+                    if e[0][0] == 'E':
+                        ids = [int(x) for x in e[1:]]
+                        if any(x >= JBASE for x in ids):
+                            continue
+                        v = [br.blocks[x] for x in ids]
+                        mode = 'z' if (a.zmode and l < 3) else 'c'
+                        acc = bytes(bs)
+                        for k, blk in enumerate(v):
+                            acc = xor_blocks(acc, gfmul_block(parity_coeff(a, l, k), blk))
+                        if len(got) == bs and got != acc:
+                            diffs.append('parity level %d pos %d after fix is not what the model says it encodes' % (l, pos))
+                            break
+        return diffs
